@@ -22,45 +22,40 @@ type RedirectFlags struct {
 	EnableAll  bool
 }
 
-// readMessage parses and defragments a packet from a Transport. It returns
-// at most the bytes that have been reported by the packet
-func readMessage(in transport.Transport) (pt int, n int, msg []byte, err error) {
-	fragment := false
-	index := 0
-	buf := make([]byte, 4096)
+// maxPacketSize bounds the length field of a single packet. The largest
+// legitimate MS-TSGU packet is a data packet with a 64KiB payload.
+const maxPacketSize = 128 * 1024
 
+// readMessage reads one packet from a Transport. Packet boundaries are taken
+// from the length field of the packet header only: bytes are collected in
+// pending until a complete packet is available, and whatever follows that
+// packet stays in pending for the next call. It returns at most the bytes
+// that have been reported by the packet
+func readMessage(in transport.Transport, pending *[]byte) (pt int, n int, msg []byte, err error) {
 	for {
+		if len(*pending) >= 8 {
+			packetType, sz, body, herr := readHeader(*pending)
+			if herr == nil {
+				msg = make([]byte, len(body))
+				copy(msg, body)
+				*pending = (*pending)[sz:]
+				if len(*pending) == 0 {
+					*pending = nil
+				}
+				return int(packetType), int(sz), msg, nil
+			}
+			if sz < 8 || sz > maxPacketSize {
+				return 0, 0, []byte{0, 0}, herr
+			}
+		}
+
 		verifHook("tr.reading", nil, in)
 		size, pkt, err := in.ReadPacket()
 		verifHook("tr.read", nil, in, size, err)
 		if err != nil {
 			return 0, 0, []byte{0, 0}, err
 		}
-
-		// check for fragments
-		var pt uint16
-		var sz uint32
-		var msg []byte
-
-		if !fragment {
-			pt, sz, msg, err = readHeader(pkt[:size])
-			if err != nil {
-				fragment = true
-				index = copy(buf, pkt[:size])
-				continue
-			}
-			index = 0
-		} else {
-			fragment = false
-			pt, sz, msg, err = readHeader(append(buf[:index], pkt[:size]...))
-			// header is corrupted even after defragmenting
-			if err != nil {
-				return 0, 0, []byte{0, 0}, err
-			}
-		}
-		if !fragment {
-			return int(pt), int(sz), msg, nil
-		}
+		*pending = append(*pending, pkt[:size]...)
 	}
 }
 
